@@ -293,6 +293,9 @@ func (t *BPTree) WriteNode(n *Node, off int64, syncEnable bool, fd *os.File) (nu
 	if off == -1 {
 		off = n.Address
 	}
+	if h, n, err := verifFS("write", fd.Name(), off, bn); h {
+		return n, err
+	}
 
 	number, err = fd.WriteAt(bn, off)
 	if err != nil {
@@ -300,6 +303,9 @@ func (t *BPTree) WriteNode(n *Node, off int64, syncEnable bool, fd *os.File) (nu
 	}
 
 	if syncEnable {
+		if h, _, err := verifFS("sync", fd.Name(), 0, nil); h {
+			return 0, err
+		}
 		err = fd.Sync()
 		if err != nil {
 			return 0, err
@@ -317,6 +323,9 @@ func (t *BPTree) WriteNodes(rwMode RWMode, syncEnable bool, flag int) error {
 		err error
 	)
 
+	if h, _, err := verifFS("open", t.Filepath, 0, nil); h {
+		return err
+	}
 	fd, err := os.OpenFile(t.Filepath, os.O_CREATE|os.O_RDWR, 0644)
 	defer fd.Close()
 
@@ -324,6 +333,7 @@ func (t *BPTree) WriteNodes(rwMode RWMode, syncEnable bool, flag int) error {
 		return err
 	}
 
+	verifAccess("queue", true, nil)
 	queue = nil
 
 	enqueue(t.root)
